@@ -465,10 +465,24 @@ def r7(ctx):
             inloop |= set(fn.walk(l))
         upd = [nid for nid, d, rhs, op, lhs in fn.assignments() if d == decl and op == '=' and nid in inloop]
         ok = False
+
+        def loop_in_front(u, want):
+            """a loop in front of the update u whose condition (every alternative) contains an atom that satisfies want:
+            the update takes the value the loop stopped at"""
+            for l in fn.all('ForStmt', 'WhileStmt'):
+                lc = fn.nodes[l].get('cond')
+                if lc is None or u in set(fn.walk(l)) or fn.line_of(l) > fn.line_of(u) or l not in inloop:
+                    continue
+                conj = facts.implied(fn, lc, True)
+                if conj and all(any(want(*facts.atom_key(fn, a)) for a in cj) for cj in conj):
+                    return True
+            return False
         for u in upd:
             ua = [a[0] for a in fn.atoms(u)]
             if any('[' in k and ' == ' in k and k.count('[') >= 2 for k in ua):
                 ok = True       # reduced at a byte mismatch between two IDs
+            elif loop_in_front(u, lambda k, p_: '[' in k and ' == ' in k and k.count('[') >= 2 and p_):
+                ok = True       # or set to where a loop over equal bytes of two IDs stopped
         ctx.ob('C08.R7', fn, c, ok, 'chain ID prefix length %s' % lenv, 'reduced per part at a mismatch with the first part: %s' % ok)
         # the prefix only shrinks from part to part: a new value is below the current one (the comparison stops at the
         # current prefix length); a prefix that can grow again holds bytes that an earlier part does not share
@@ -480,6 +494,19 @@ def r7(ctx):
                     not any('[' in k and ' == ' in k and k.count('[') >= 2 for k, p_ in ua):
                 continue   # the start value taken from the first part
             mono = ('(%s < %s)' % (rk, lenv), True) in ua or ('(%s <= %s)' % (lenv, rk), False) in ua
+            if not mono:
+                # or the new value is the counter of a loop that is bounded by the current prefix length and lies in front
+                # of the assignment: for (pos = 2; pos < prefix && same byte; pos++) {} prefix = pos;
+                for l in fn.all('ForStmt', 'WhileStmt'):
+                    lc = fn.nodes[l].get('cond')
+                    if lc is None or u in set(fn.walk(l)) or fn.line_of(l) > fn.line_of(u):
+                        continue
+                    conj = facts.implied(fn, lc, True)
+                    bounded = bool(conj) and all(any(facts.atom_key(fn, a) == ('(%s < %s)' % (rk, lenv), True) for a in cj) for cj in conj)
+                    writes_between = [n2 for n2, d2, r2, o2, l2 in fn.assignments() if d2 and d2.split(':')[-1] in (rk, lenv) and
+                                      n2 not in set(fn.walk(l)) and fn.line_of(l) < fn.line_of(n2) < fn.line_of(u)]
+                    if bounded and not writes_between:
+                        mono = True
             n += 1
             ctx.ob('C08.R7', fn, u, mono, 'new chain ID prefix length %s' % rk, 'only ever smaller than the current one: %s' % mono)
     if n < 1:
